@@ -22,6 +22,12 @@ var SimSeed uint64
 //go:linkname SimRand runtime.SimRand
 var SimRand uint64
 
+//go:linkname SimMapSeed runtime.SimMapSeed
+var SimMapSeed uint64
+
+//go:linkname SimIter runtime.SimIter
+var SimIter uint64
+
 //go:linkname SimNoPreempt runtime.SimNoPreempt
 var SimNoPreempt uint32
 
